@@ -35,15 +35,29 @@ type KeyPair struct {
 }
 
 // mintWindow issues a fresh self-signed certificate for a static RSA key, valid from now+from to now+to seconds
-// ("<key>@<from>:<to>", e.g. idp-response@-3600:120 = in its last two minutes). The key stays the static one.
+// ("<key>@<from>:<to>", e.g. idp-response@-3600:120 = in its last two minutes), or with fixed dates in the past / future
+// ("<key>@expired", "<key>@future"). The key stays the static one.
 func mintWindow(base *KeyPair, name, window string) *KeyPair {
 	var from, to int
-	if _, err := fmt.Sscanf(window, "%d:%d", &from, &to); err != nil || base.RSA == nil {
-		panic(fmt.Sprintf("world: bad key window %q", name))
-	}
 	now := time.Now()
+	minted := now
+	var nb, na time.Time
+	switch window {
+	case "expired": // fixed dates: the same certificate in every run
+		nb, na, minted = time.Date(2001, 1, 1, 0, 0, 0, 0, time.UTC), time.Date(2002, 1, 1, 0, 0, 0, 0, time.UTC), time.Time{}
+	case "future":
+		nb, na, minted = time.Date(2090, 1, 1, 0, 0, 0, 0, time.UTC), time.Date(2099, 1, 1, 0, 0, 0, 0, time.UTC), time.Time{}
+	default:
+		if _, err := fmt.Sscanf(window, "%d:%d", &from, &to); err != nil {
+			panic(fmt.Sprintf("world: bad key window %q", name))
+		}
+		nb, na = now.Add(time.Duration(from)*time.Second), now.Add(time.Duration(to)*time.Second)
+	}
+	if base.RSA == nil {
+		panic(fmt.Sprintf("world: key window on a non-RSA key %q", name))
+	}
 	tmpl := &x509.Certificate{SerialNumber: big.NewInt(int64(1000 + len(window))), Subject: base.Cert.Subject,
-		NotBefore: now.Add(time.Duration(from) * time.Second), NotAfter: now.Add(time.Duration(to) * time.Second),
+		NotBefore: nb, NotAfter: na,
 		KeyUsage: x509.KeyUsageDigitalSignature, BasicConstraintsValid: true}
 	der, err := x509.CreateCertificate(crand.Reader, tmpl, tmpl, &base.RSA.PublicKey, base.RSA)
 	if err != nil {
@@ -53,7 +67,7 @@ func mintWindow(base *KeyPair, name, window string) *KeyPair {
 	if err != nil {
 		panic(err)
 	}
-	return &KeyPair{Name: name, CertDER: der, Cert: c, Signer: base.Signer, RSA: base.RSA, minted: now}
+	return &KeyPair{Name: name, CertDER: der, Cert: c, Signer: base.Signer, RSA: base.RSA, minted: minted}
 }
 
 var (
